@@ -487,6 +487,51 @@ func runC21(c *core.Ctx) {
 			c.Sample(sc.String())
 		}
 	}
+	// whole-instance part: a real responder with configured limits serving three
+	// requests of one peer (responder world, rsp.go)
+	for _, w := range []int{1, 2} {
+		for _, pp := range []int{0, 1, 2} {
+			for _, acts := range [][]rspAct{nil, {{K: "p-cancel2", Pos: 1}}, {{K: "p-cancel2", Pos: 0}, {K: "p-new2", Pos: 1}}, {{K: "p-cancel", Pos: 1}, {K: "p-new2", Pos: 2}}} {
+				for _, sched := range []bool{false, true} {
+					idx++
+					if !c.Mine(idx) {
+						continue
+					}
+					if c.Expired() {
+						c.Res.Exhaustive = false
+						return
+					}
+					cs := rspCase{Hook: "accept", Reqs: 3, Workers: w, PerPeer: pp, Acts: acts, Sched: sched, Blocks: 2}
+					if sched {
+						for i := range cs.Acts {
+							cs.Acts[i].Pos = 0
+						}
+						c.Explore(core.ExploreOpts{MaxBound: 1, Cost: core.Deviation, Label: cs, NoShard: true, MaxExecs: 60000}, func(cfg vsched.Config) core.Exec {
+							o, s := rspRun(cfg, cs)
+							return core.Exec{Sched: s, Outcome: fmt.Sprintf("instance W=%d M=%d completed=%d", w, pp, len(o.completed)), Viol: c21JudgeInstance(cs, o)}
+						})
+						continue
+					}
+					o, _ := rspRun(vsched.Config{Fast: true}, cs)
+					c.Res.Evaluations++
+					c.Res.Traces++
+					c.Class(fmt.Sprintf("instance W=%d M=%d maxActive=%d", w, pp, o.maxRunning))
+					if v := c21JudgeInstance(cs, o); v != nil {
+						c.Violate(v.Signature, v.What, v.Replay)
+					}
+				}
+			}
+		}
+	}
+	// a cancel racing with the start of the cancelled request must not cost the peer its slot
+	for _, w := range []int{1, 2} {
+		// (explored by all shards together: level-1 subtrees are distributed)
+		cs := rspCase{Hook: "accept", Reqs: 1, Workers: w, PerPeer: 1, Acts: []rspAct{{K: "p-cancel"}, {K: "p-new2"}}, Sched: true, Blocks: 1}
+		c.Explore(core.ExploreOpts{MaxBound: 2, Cost: core.Deviation, Label: cs, MaxExecs: 80000}, func(cfg vsched.Config) core.Exec {
+			o, s := rspRun(cfg, cs)
+			return core.Exec{Sched: s, Outcome: fmt.Sprintf("instance cancel-vs-start W=%d completed=%d", w, len(o.completed)), Viol: c21JudgeInstance(cs, o)}
+		})
+	}
 	// starvation lassos: one configuration per shard
 	type lcfg struct{ w, m, peers int }
 	var lc []lcfg
@@ -530,19 +575,76 @@ func runC21(c *core.Ctx) {
 	}
 }
 
+// c21JudgeInstance: limits as observed through Stats/PeerState at quiescent
+// points, and every received request that was not cancelled ran to completion.
+func c21JudgeInstance(cs rspCase, o *rspObs) *core.Violation {
+	v := func(sig, what string) *core.Violation {
+		return &core.Violation{Signature: sig + "/instance", What: fmt.Sprintf("%s (events: %s): %s", cs, strings.Join(o.trace, ","), what), Replay: map[string]any{"instance": cs}}
+	}
+	if o.panicked != "" {
+		return v("panic", o.panicked)
+	}
+	if o.maxRunning > cs.Workers {
+		return v("too-many-tasks-running", fmt.Sprintf("%d incoming requests active with a maximum of %d", o.maxRunning, cs.Workers))
+	}
+	if cs.PerPeer > 0 && o.maxPerPeer > cs.PerPeer {
+		return v("per-peer-limit-exceeded", fmt.Sprintf("%d requests of one peer active with a per-peer maximum of %d", o.maxPerPeer, cs.PerPeer))
+	}
+	cancelled := map[int]bool{}
+	for _, a := range cs.Acts {
+		if a.K == "p-cancel" {
+			cancelled[0] = true
+		}
+		if a.K == "p-cancel2" {
+			cancelled[1] = true
+		}
+	}
+	for i, id := range o.ids {
+		if !o.received[id] || cancelled[i] {
+			continue
+		}
+		if len(o.completed[id]) == 0 && o.neterr[id] == 0 {
+			return v("queued-request-never-executed", fmt.Sprintf("request %d was received and not cancelled but never completed (state left %q, queue %v, stats %s)", i+1, o.stateLeft[id], o.queueLeft, o.stats))
+		}
+	}
+	return nil
+}
+
 func init() {
 	core.Register(&core.Prop{ID: "C21", Level: "model_checking",
-		Rule:        "(a) scenarios W in {1,2,3} workers x per-peer maximum M in {0,1,2} x 6 (thorough 8) task layouts over <=3 peers (one pusher thread per peer, one finisher thread per task so completion order is a scheduling choice) + removals racing with pops; all schedules within the deviation bound on the real WorkerTaskQueue; (b) explicit-state search for starvation lassos: BFS over push/finish event histories on the real queue and workers (quiescing after each event), abstract state = per-peer (pending, running), a cycle along which another peer's single queued task is never started while tasks start and finish, then pumped 100 rounds on the real queue; a class is a distinct (W, M, ran/not-run) outcome",
+		Rule:        "(0) whole instance: a real responder with MaxInProgressIncomingRequests W in {1,2} and per-peer maximum M in {0,1,2} serves three requests of one peer with cancels and late arrivals, event level and all schedules within deviation bound 1: active counts within the limits at every quiescent point, every received un-cancelled request completes; (a) scenarios W in {1,2,3} workers x per-peer maximum M in {0,1,2} x 6 (thorough 8) task layouts over <=3 peers (one pusher thread per peer, one finisher thread per task so completion order is a scheduling choice) + removals racing with pops; all schedules within the deviation bound on the real WorkerTaskQueue; (b) explicit-state search for starvation lassos: BFS over push/finish event histories on the real queue and workers (quiescing after each event), abstract state = per-peer (pending, running), a cycle along which another peer's single queued task is never started while tasks start and finish, then pumped 100 rounds on the real queue; a class is a distinct (W, M, ran/not-run) outcome",
 		Assumptions: []string{"a task's duration is the scheduling of its finisher thread", "eventually = at final quiescence after the ticker horizon (6 idle thaw ticks)", "lasso abstraction: per-peer counts; every reported lasso is confirmed by replaying 100 rounds on the real queue"},
 		Run:         runC21, QuickBudget: 300, ThoroughBudget: 2400,
 		Replay: func(raw json.RawMessage) string {
 			var w struct {
-				Label  tqScenario `json:"label"`
-				Prefix []int      `json:"prefix"`
-				Lasso  *tqLasso   `json:"lasso"`
+				Label    tqScenario `json:"label"`
+				Prefix   []int      `json:"prefix"`
+				Lasso    *tqLasso   `json:"lasso"`
+				Instance *rspCase   `json:"instance"`
 			}
 			if err := json.Unmarshal(raw, &w); err != nil {
 				return err.Error()
+			}
+			if w.Instance != nil || strings.Contains(string(raw), `"hook"`) {
+				var cs rspCase
+				if w.Instance != nil {
+					cs = *w.Instance
+				} else {
+					var l struct {
+						Label rspCase `json:"label"`
+					}
+					json.Unmarshal(raw, &l)
+					cs = l.Label
+				}
+				cfg := vsched.Config{Fast: true}
+				if cs.Sched {
+					cfg = vsched.Config{Prefix: w.Prefix}
+				}
+				o, _ := rspRun(cfg, cs)
+				if v := c21JudgeInstance(cs, o); v != nil {
+					return v.Signature + ": " + v.What
+				}
+				return "ok"
 			}
 			if w.Lasso != nil {
 				var lines []string
